@@ -90,6 +90,16 @@ Theorem C15_reachable_models_wf : forall steps os,
 Proof. intros. apply run_steps_wf. exact wf_model_nil. Qed.
 Print Assumptions C15_reachable_models_wf.
 
+(* (6) real instances (GraphDatabase::update_data_model): for every history of starts and run-time
+   updates — versions refused by the data model rules or by the database when the model is stored
+   (storage_refuses: index names that differ only by letter case) included — the model in memory
+   is the stored one after every step, a refused step leaves the store (hence the running
+   instance) as it was, an accepted one keeps the identifiers *)
+Theorem C15_instance_memory_is_store : forall steps os,
+  inst_chain empty_model (run_inst_obs empty_model empty_model false steps os).
+Proof. intros. apply run_inst_chain; [exact wf_model_nil | discriminate]. Qed.
+Print Assumptions C15_instance_memory_is_store.
+
 (* the model part of the property, all together *)
 Theorem C15_full_partial : C15_full.
 Proof.
@@ -98,7 +108,7 @@ Proof.
 Qed.
 Print Assumptions C15_full_partial.
 
-(* (6) regression examples: the witnesses that refuted (3), (4), (5) on the original tree.
+(* (7) regression examples: the witnesses that refuted (3), (4), (5) on the original tree.
    K1: f3 and f2 added at once get the identifiers of their place in the text and the same text
    again is accepted;  K2: a version valid for E1 and invalid for E2 is refused and nothing has
    changed, whichever entity the hash map visits first *)
@@ -121,6 +131,18 @@ Print Assumptions C15_k2_regression.
 Example C15_spec_accepts_witnesses :
   spec_C15 w_case_k1 (run_C15 w_case_k1) = true /\ spec_C15 w_case_k2 (run_C15 w_case_k2) = true /\
   spec_C15 w_case_k3 (run_C15 w_case_k3) = true /\
-  map fst (run_inst_obs empty_model false [(true, mkS false w_w1); (false, mkS false (mkV 2 [(2, [mkED 1 false true [fS 1] []])])); (true, mkS false w_w1)] []) = [true; false; true].
+  map fst (run_inst_obs empty_model empty_model false [(true, mkS false w_w1); (false, mkS false (mkV 2 [(2, [mkED 1 false true [fS 1] []])])); (true, mkS false w_w1)] []) = [true; false; true].
 Proof. exact spec_witnesses. Qed.
 Print Assumptions C15_spec_accepts_witnesses.
+
+(* a version accepted by the data model rules and refused by the database (E1 and e1, both with
+   index(f1)): at run time and at start it is refused, reported, and changes nothing *)
+Example C15_storage_refusal_regression :
+  snd (upd zero_oracle false (fst (upd zero_oracle false empty_model w_ix1)) w_ix_clash) = None /\
+  storage_refuses w_ix_clash = true /\ storage_refuses w_ix3 = false /\
+  map fst (run_inst_obs empty_model empty_model false
+             [(true, mkS false w_ix1); (false, mkS false w_ix_clash); (false, mkS false w_ix3); (true, mkS false w_ix_clash); (true, mkS false w_ix3)] [])
+    = [true; false; true; false; true] /\
+  spec_C15 w_case_storage (run_C15 w_case_storage) = true.
+Proof. exact storage_witness. Qed.
+Print Assumptions C15_storage_refusal_regression.
